@@ -5,6 +5,7 @@ cache hits, and the functional contracts are over mathematical integers with mas
 a 32-bit truncation fails a content obligation.  Bounded part (this module): huge sparse images on a byte-counting SparseFile."""
 from __future__ import annotations
 
+import ast
 import importlib
 
 from pyvc import driver
@@ -46,10 +47,40 @@ def loader_obligations(rep, pid):
     rep.functions.append({"function": "table loaders of qcow2/hdd/vmdk/vhdx/vhd", "contract": "memoised: cached_property or lru_cache wrapping in __init__", "props": ["C13"]})
 
 
+def stream_buffer_obligations(rep, pid):
+    """every stream class of the package hands only the size to AlignedStream.__init__: the read granularity stays the library's default
+    buffer (DISSECT_STREAM_BUFFER_SIZE, 8 KiB unless the user overrides it), which is the constant in the proved cost bounds
+    io <= a * length + b * unit + c.  An `align` taken from the image (cluster size, block size) would make a 512-byte read cost a whole
+    cluster / block of I/O."""
+    import os
+
+    root = os.path.join(rep.repo, "dissect", "hypervisor")
+    for d, _dirs, fs in os.walk(root):
+        for f in sorted(fs):
+            if not f.endswith(".py"):
+                continue
+            rel = os.path.relpath(os.path.join(d, f), rep.repo)
+            try:
+                tree = ast.parse(open(os.path.join(d, f)).read())
+            except (OSError, SyntaxError):
+                continue
+            for cls in [n for n in tree.body if isinstance(n, ast.ClassDef) and any(ast.unparse(b).split(".")[-1] == "AlignedStream" for b in n.bases)]:
+                name = f"{f[:-3]}:{cls.name}.__init__/stream_buffer_is_the_default_size"
+                calls = [c for c in ast.walk(cls) if isinstance(c, ast.Call) and ast.unparse(c.func) in ("super().__init__", "AlignedStream.__init__")]
+                bad = [ast.unparse(c)[:80] for c in calls if len(c.args) > (2 if ast.unparse(c.func) == "AlignedStream.__init__" else 1) or any(k.arg in ("align", None) for k in c.keywords)]
+                bad += [ast.unparse(s_)[:80] for s_ in ast.walk(cls) if isinstance(s_, (ast.Assign, ast.AugAssign)) and any(ast.unparse(t) == "self.align" for t in (s_.targets if isinstance(s_, ast.Assign) else [s_.target]))]
+                rep.obligations[name] = {"verdict": "discharged" if not bad else "undischarged", "atoms": 1, "ms": 0, "backends": {"set-inclusion"}, "stages": set(), "line": cls.lineno, "props": ["C13"]}
+                if bad:
+                    p = driver.write_replay(pid, name, {"property": pid, "obligation": name, "verifier_output": f"{rel}: class {cls.name} sets the stream alignment itself: {bad}"})
+                    rep.violations.append((p, f"{cls.name}: the stream buffer size is taken from the image / set by the class ({bad[0]}): small reads cost a whole buffer of that size", True))
+    rep.functions.append({"function": "every AlignedStream subclass under dissect/hypervisor/**", "contract": "AlignedStream.__init__ receives the size only (default buffer size)", "props": ["C13"]})
+
+
 def extra_checks(rep, pid, ledger, known):
     from replay import harness
 
     loader_obligations(rep, pid)
+    stream_buffer_obligations(rep, pid)
 
     evals = 0
     distinct = 0
